@@ -152,6 +152,24 @@ Theorem cc_order_independent : forall dist N knn1 knn2 p,
 Proof. exact main_cc_order_independent. Qed.
 Print Assumptions cc_order_independent.
 
+(* tie_free is necessary: five DISTINCT samples 0,1,2,3,6 on a line, k = 3, two exact searches that differ only
+   in which of two equidistant samples they keep (the same reference search on the samples supplied forwards and
+   backwards): 4 neighbours one way, 3 the other.  With tied distances the literal claim "the decision does not
+   depend on the order of the samples" fails for any search that returns exactly k neighbours and breaks ties by
+   position (which the three tapkee searches do: reproduced on the real library, see c03_notes.md) *)
+Theorem cc_order_ties_refuted :
+  exists pts p k,
+    let N := length pts in
+    NoDup pts /\ is_perm N p /\ 3 <= k /\ k <= N - 1 /\
+    (forall k', k' <= N - 1 -> is_knn_graph (pdist pts) N k' (knn_brute pts k')) /\
+    (forall k', k' <= N - 1 ->
+       is_knn_graph (fun v u => pdist pts (nth v p 0) (nth u p 0)) N k' (knn_brute (rev pts) k')) /\
+    exists k1 k2 g1 g2, k1 <> k2 /\
+      find_neighbors is_connected_fixed (knn_brute pts) N N k true = COk (k1, g1) /\
+      find_neighbors is_connected_fixed (knn_brute (rev pts)) N N k true = COk (k2, g2).
+Proof. exact main_cc_ties_order_refuted. Qed.
+Print Assumptions cc_order_ties_refuted.
+
 (* same samples, two different exact searches (brute force / VP-tree / cover tree) *)
 Theorem cc_method_independent : forall dist N knn1 knn2,
   tie_free dist N -> 1 <= N ->
